@@ -159,3 +159,111 @@ def _(rng):
     c = _cost_table(rng)
     return dict(label_assignment_cost=c,
                 label_switching_cost=np.array([float(rng.choice([0, 0.5, 1, 3, 10])) for _ in range(c.shape[0])]))
+
+SV = 'fast_ticc.admm.solver.'
+
+
+def _spd(rng, n, lo=0.25, hi=4.0):
+    a = np.array([[rng.gauss(0, 1) for _ in range(n)] for _ in range(n)])
+    q, _ = np.linalg.qr(a) if n > 0 else (a, None)
+    d = np.array([rng.uniform(lo, hi) for _ in range(n)])
+    m = (q * d) @ q.T
+    return (m + m.T) / 2
+
+
+@gen(SV + 'soft_threshold_prox')
+def _(rng):
+    return dict(scaled_point_sum=fl(rng), lambda_sum=abs(fl(rng, 0, 4)), rho_times_r=rng.choice([0.25, 0.5, 1.0, 2.0, 3.0]))
+
+
+def _cls(rng):
+    d = _class5(rng)
+    return dict(block_id=d['block_id'], row=d['row_in_block'], column=d['col_in_block'], block_size=d['block_size'],
+                num_blocks=d['num_blocks'])
+
+
+@gen(SV + 'compute_lambda_sum#float')
+def _(rng):
+    return dict(lambda_parameter=abs(fl(rng, 0, 4)), **_cls(rng))
+
+
+@gen(SV + 'compute_lambda_sum#int')
+def _(rng):
+    return dict(lambda_parameter=rng.randint(0, 3), **_cls(rng))
+
+
+@gen(SV + 'compute_lambda_sum#array')
+def _(rng):
+    c = _cls(rng)
+    n = c['block_size'] * c['num_blocks']
+    lam = np.full((n, n), abs(fl(rng, 0, 4))) if rng.random() < 0.4 else np.abs(sym(rng, n))
+    return dict(lambda_parameter=lam, **c)
+
+
+@gen(SV + 'admm_update_u')
+def _(rng):
+    n = rng.randint(0, 10)
+    return dict(u=farr(rng, n), x=farr(rng, n), z=farr(rng, n))
+
+
+def _admm_args(rng, lam=None, nw=None):
+    from fast_ticc.containers import arguments
+    w, n = nw or (rng.randint(1, 3), rng.randint(1, 3))
+    return arguments.ADMMArguments(window_size=w, num_data_series=n, rho=rng.choice([0.5, 1.0, 2.0]), rho_update=None,
+                                   sparsity_weight=abs(fl(rng, 0, 2)) if lam is None else lam,
+                                   absolute_tolerance=1e-6, relative_tolerance=1e-6, max_iterations=rng.randint(0, 30),
+                                   verbose=False)
+
+
+@gen(SV + 'check_convergence')
+def _(rng):
+    a = _admm_args(rng)
+    m = a.window_size * a.num_data_series
+    k = m * (m + 1) // 2
+    return dict(args=a, u=farr(rng, k), x=farr(rng, k), z=farr(rng, k), z_old=farr(rng, k))
+
+
+@gen(SV + 'x_update_prox')
+def _(rng):
+    n = rng.randint(1, 5)
+    return dict(empirical_covariance=_spd(rng, n, 0.0, 4.0), z_minus_u=sym(rng, n), rho=rng.choice([0.5, 1.0, 2.0]))
+
+
+@gen(SV + 'admm_update_x')
+def _(rng):
+    a = _admm_args(rng)
+    m = a.window_size * a.num_data_series
+    k = m * (m + 1) // 2
+    return dict(args=a, u=farr(rng, k), z=farr(rng, k), empirical_covariance=_spd(rng, m, 0.0, 4.0))
+
+
+@gen(SV + 'admm_update_z#float')
+def _(rng):
+    a = _admm_args(rng)
+    m = a.window_size * a.num_data_series
+    k = m * (m + 1) // 2
+    return dict(args=a, u=farr(rng, k), x=farr(rng, k))
+
+
+@gen(SV + 'admm_update_z#array')
+def _(rng):
+    nw = (rng.randint(1, 3), rng.randint(1, 3))
+    m = nw[0] * nw[1]
+    a = _admm_args(rng, lam=np.abs(sym(rng, m)), nw=nw)
+    k = m * (m + 1) // 2
+    return dict(args=a, u=farr(rng, k), x=farr(rng, k))
+
+
+@gen(SV + 'run_admm_optimization')
+def _(rng):
+    a = _admm_args(rng)
+    m = a.window_size * a.num_data_series
+    return dict(args=a, empirical_covariance=_spd(rng, m))
+
+
+@gen('fast_ticc.admm.front_end.admm_optimize_theta')
+def _(rng):
+    w, n = rng.randint(1, 3), rng.randint(1, 3)
+    return dict(empirical_covariance=_spd(rng, w * n), sparsity_weight=abs(fl(rng, 0, 2)), window_size=w, num_data_series=n,
+                rho=rng.choice([0.5, 1.0, 2.0]), rho_update=None, max_iterations=rng.randint(1, 40),
+                absolute_tolerance=1e-6, relative_tolerance=1e-6, verbose=False)
